@@ -244,19 +244,33 @@ def download_window_oracle(obs):
         stats['nonseekable_ranged'] += 1
         finished = set()
         over = False
+        superseded = 0
+        retried_ranges = set()
         first_trouble = min([e['n'] for e in obs.events if e['kind'] in ('cancel.begin',)], default=10 ** 12)
         hard_fault = min([e['n'] for e in obs.events if e['kind'] == 'fault' and e.get('fkind') not in
                           ('timeout', 'connreset', 'readtimeout', 'protocol', 'incomplete')], default=10 ** 12)
         stop = min(first_trouble, hard_fault)
         for e in obs.events:
-            if e.get('label') != x.label or e['n'] >= stop:
+            if e['n'] >= stop:
+                continue
+            if e['kind'] == 'fault' and e.get('phase') == 'body' and e.get('delivered') and str(e.get('key', '')).startswith(x.label + '/'):
+                # an attempt cut in the middle of a chunk leaves its short last block queued beside the full block of the retry
+                # (superseded, dropped when its turn comes): one such fragment per cut is tolerated
+                superseded += e['delivered'] % io_chunk
+                rk = e['key'].rsplit('#', 1)[0]
+                if rk not in retried_ranges:
+                    # ... and the task of a range that is being retried keeps the last chunk of the failed attempt reachable
+                    # through the exception it remembers (one chunk per such task, however often it retries)
+                    retried_ranges.add(rk)
+                    superseded += io_chunk
+            if e.get('label') != x.label:
                 continue
             if e['kind'] == 'body.read' and e.get('alive') is not None:
                 stats['alive_samples'] += 1
                 stats['max_alive_body_bytes'] = max(stats['max_alive_body_bytes'], e['alive'])
                 if e['alive'] >= win * C:
                     stats['alive_at_window'] = 1
-                if e['alive'] > alive_bound and not over:
+                if e['alive'] > alive_bound + superseded and not over:
                     over = True
                     viol.append(V(f'{x.label}: {e["alive"]} bytes of response data are held by the library (after {e["key"]}); the window '
                                   f'allows {win} parts of {C} (+ {alive_bound - win * C} for pending writes and chunks in hand)',
